@@ -59,6 +59,15 @@ def run(tier, seed):
     long_b = {"w": {"min": 1, "max": 60}, "names": [["connecting", "connect_fail"]] * n_long,
               "hist": [{"outcome": "connect_fail", "draw": [1, 2], "k": i + 1, "delay": [0, 1], "stop": i == n_long - 1} for i in range(n_long)]}
     jobs.append((long_b, scenario(long_b)))
+    # an attempt that fails because the application called close() at its Connecting event (the upgrade request is refused with
+    # WebSocketClosing): one more ConnectFail as far as persist() is concerned - back-off and the next attempt follow
+    for at in (0, 1, 2):
+        hist = [{"outcome": "connect_fail", "draw": [1, 2], "k": i + 1, "delay": [0, 1], "stop": i == 3} for i in range(4)]
+        b = {"w": {"min": 1, "max": 60}, "names": [["connecting", "connect_fail"]] * 4, "hist": hist}
+        sc = scenario(b)
+        sc['conns'][at] = {"net": ["ok"], "stream": [{"t": "http", "v": "ok"}]}
+        sc['react'] = {"connecting#%d" % at: [["close"]]}
+        jobs.append((b, sc))
     logs = pipeline.execute([j[1] for j in jobs])
     r.evaluations = len(jobs)
     r.traces = len(jobs)
